@@ -90,19 +90,20 @@ Definition h_typemap (a : list sx) : sx :=
   | _ => err "arity"
   end.
 
-(* (predict (INT96_TZ ABSENT_COUNTS CAT_MD) HAS_MD PANDAS_NULLS SE MD I (RG ...) AS_CATEGORY) -> (ok DT) | (err) *)
+(* (predict (INT96_TZ ABSENT_COUNTS CAT_MD BY_NAME) HAS_MD PANDAS_NULLS SE MD (#chunk_path ...) #field_name I (RG ...) AS_CATEGORY)
+   -> (ok DT) | (err) *)
 Definition h_predict (a : list sx) : sx :=
   match a with
-  | [i96; hm; pn; se; md; i; rgs; cat] =>
+  | [i96; hm; pn; se; md; paths; name; i; rgs; cat] =>
     match as_list_of as_bool i96, as_bool hm, as_bool pn, as_se se with
-    | Some [r1; r2; r3], Some hm, Some pn, Some se =>
-      match as_opt as_md1 md, as_nat i, as_list_of as_rg rgs, as_bool cat with
-      | Some md, Some i, Some rgs, Some cat =>
-        s_res (match base_dtype_gen (mk_rules r1 r2 r3) pinned hm pn se md i rgs with
+    | Some [r1; r2; r3; r4], Some hm, Some pn, Some se =>
+      match as_opt as_md1 md, as_nat i, as_list_of as_rg rgs, as_bool cat, as_list_of as_bytes paths, as_bytes name with
+      | Some md, Some i, Some rgs, Some cat, Some paths, Some name =>
+        s_res (match base_dtype_gen (mk_rules r1 r2 r3 r4) pinned hm pn se md (field_chunk r4 paths name i) rgs with
                | RErr => RErr
                | ROk d => if cat then ROk DCat else ROk d
                end)
-      | _, _, _, _ => err "args2"
+      | _, _, _, _, _, _ => err "args2"
       end
     | _, _, _, _ => err "args1"
     end
@@ -120,11 +121,11 @@ Definition h_realise (a : list sx) : sx :=
   | _ => err "arity"
   end.
 
-(* (null_evidence ABSENT_COUNTS I (RG ...)) -> (0/1)? *)
+(* (null_evidence ABSENT_COUNTS LOC? (RG ...)) -> (0/1)? *)
 Definition h_null_evidence (a : list sx) : sx :=
   match a with
   | [ab; i; rgs] =>
-    match as_bool ab, as_nat i, as_list_of as_rg rgs with
+    match as_bool ab, as_opt as_nat i, as_list_of as_rg rgs with
     | Some ab, Some i, Some rgs => sopt sbool (null_evidence_gen ab i rgs)
     | _, _, _ => err "args"
     end
